@@ -49,3 +49,24 @@ Definition run_pread (input : list N) : list N :=
    with reason 2 (guard), event code 10 *)
 Example run_pread_reject : run_pread [3;1;2;3; 0; 1; 10;1;5;0] = [0; 0; 2; 10].
 Proof. vm_compute. reflexivity. Qed.
+
+(* a full accepted trace: 1 is elected in term 1 with 2's vote, proposes, 2 replicates and
+   acknowledges, 1 commits index 2; read request ctx 5 (index 2), heartbeat ack of 2, answer *)
+Definition pread_sample : list N :=
+  [3;1;2;3; 0; 16;
+   1;1;0;0;0;1;1;1;0;  3;1;1;1;  4;1;1;2;1;
+   1;2;0;0;0;1;1;0;0;  3;2;1;1;  4;2;2;1;1;
+   1;1;1;1;1;1;1;2;1;2;
+   7;1;2;1;0;1;7;0;0;  8;1;2;1;0;1;7;
+   7;2;2;1;0;1;7;0;1;2;  8;2;2;1;0;1;7;  9;2;1;2;
+   7;1;2;1;0;1;7;2;0;
+   10;1;5;2;  11;2;1;1;5;  12;1;5;2].
+
+Example run_pread_accept : run_pread pread_sample = [1; 16].
+Proof. vm_compute. reflexivity. Qed.
+
+(* the same trace with the acknowledgement created BEFORE the request is recorded is
+   rejected at the acknowledgement (event 13, reason 2 = guard, code 11) *)
+Example run_pread_early_ack :
+  run_pread (firstn 98 pread_sample ++ [11;2;1;1;5; 10;1;5;2; 12;1;5;2]) = [0; 13; 2; 11].
+Proof. vm_compute. reflexivity. Qed.
